@@ -1468,7 +1468,59 @@ def _b_print(interp, c, args, kw):
     return None
 
 
+_RE_CACHE = {}
+RE_MAX_MATCHES = 3
+
+
+def _b_re_escape(interp, c, args, kw):
+    s = args[0]
+    if isinstance(s, str):
+        import re
+        return re.escape(s)
+    return str_uf(interp, 're.escape', s, sort='str')
+
+
+def _b_re_finditer(interp, c, args, kw):
+    """Assumed contract of re.finditer(pattern, text, flags) (bounded: at most RE_MAX_MATCHES matches): a finite sequence
+    of matches with 0 <= start <= end <= len(text), increasing and non-overlapping, determined by the three arguments."""
+    pat, text = args[0], args[1]
+    flags = args[2] if len(args) > 2 else kw.get('flags', 0)
+    key = (str(str_term(pat)), str(str_term(text)), str(Z(flags)) if is_z3(flags) else flags)
+    ent = _RE_CACHE.setdefault(key, {'id': len(_RE_CACHE)})
+    ck = ('re_k', key)
+    if ck not in c.cache:
+        c.cache[ck] = c.choice(RE_MAX_MATCHES + 1)
+    k = c.cache[ck]
+    c.no_crosscheck = True
+    n = sym.s_len(text)
+    out = []
+    prev_end = 0
+    prev_start = None
+    for i in range(k):
+        s_ = sym.int_const('re_s!%d_%d_%d' % (ent['id'], k, i))
+        e_ = sym.int_const('re_e!%d_%d_%d' % (ent['id'], k, i))
+        c.assume(i_cmp('>=', s_, prev_end))
+        c.assume(i_cmp('<=', s_, e_))
+        c.assume(i_cmp('<=', e_, n))
+        if prev_start is not None:
+            c.assume(i_cmp('>', s_, prev_start))
+        out.append(PObj('__match__', {'_start': s_, '_end': e_}))
+        prev_end, prev_start = e_, s_
+    return PIter(out)
+
+
+def _match_method(which):
+    def f(interp, recv, args, kwargs):
+        g = args[0] if args else 0
+        if is_z3(g) or g != 0:
+            from .summaries import AbsAny as _AbsAny  # group other than 0: uninterpreted position inside the match
+            return sym.atom(z3.Function('match.%s' % which, sym.IntSort, sym.IntSort, sym.IntSort)(Z(recv.attrs['_start']), Z(g)))
+        return recv.attrs['_' + which]
+    return f
+
+
 _BUILTINS = {
+    're.escape': _b_re_escape, 're.finditer': _b_re_finditer,
     'len': _b_len, 'isinstance': _b_isinstance, 'hasattr': _b_hasattr, 'getattr': _b_getattr, 'str': _b_str,
     'repr': _b_repr, 'int': _b_int, 'bool': _b_bool, 'list': _b_list, 'tuple': _b_tuple, 'dict': _b_dict,
     'sorted': _b_sorted, 'reversed': _b_reversed, 'range': _b_range, 'enumerate': _b_enumerate, 'zip': _b_zip,
